@@ -250,7 +250,15 @@ func c07Run(c *Ctx) {
 		}
 	}
 	// 5f. the hand-written scoping / closure / call programs (environment handling under every mechanism)
-	for _, src := range append(c03Handwritten(), c04Handwritten()...) {
+	hw := append(c03Handwritten(), c04Handwritten()...)
+	hw = append(hw, c11Freshness()...)
+	hw = append(hw,
+		// listings are ordinary arrays: whatever is stored into one, the object lists its properties again (and again) afterwards
+		Lines(Var("o", "{a: 1, b: 2, c: 3}"), Var("ks", BI("keys", "o")), "ks[0] = 5; ks[1] = nil; ks[2] = "+True()+";", Print(BI("keys", "o")), Print(BI("values", "o")), Var("vs", BI("values", "o")), `vs[0] = "x"; vs[1] = [ks];`, Print(BI("values", "o")), Print(BI("keys", "o")), "o.d = ks;", Print(BI("keys", "o")), BI("delete", "o", `"a"`)+";", Print(BI("values", "o")), Print(BI("len", BI("keys", "o"))+" + "+BI("len", "ks"))),
+		// every statement kind as the unbraced body of every loop and branch
+		Lines(Var("t", "0"), For(Var("i", "0"), "i < 3", "i = i + 1", "t = t + i;"), For(Var("i", "0"), "i < 2", "i = i + 1", Print("i")), For(Var("i", "0"), "i < 5", "i = i + 1", If("i > 1", Break())), For(Var("i", "0"), "i < 2", "i = i + 1", Continue()), For(Var("i", "0"), "i < 2", "i = i + 1", For(Var("j", "0"), "j < 2", "j = j + 1", "t = t + 1;")),
+			For(Var("i", "0"), "i < 2", "i = i + 1", While("t < 0", "t = 0;")), For(Var("i", "0"), "i < 1", "i = i + 1", ";"), Var("w", "0"), While("w < 3", "w = w + 1;"), While("w < 5", IfElse("w == 3", "w = 5;", Break())), Fun("f", "", " "+For(Var("i", "0"), "i < 3", "i = i + 1", Ret("i"))+" "), Print("f()"), Print("t + w")))
+	for _, src := range hw {
 		if c.Mine() {
 			c07Judge(c, &Case{Gen: "handwritten-programs", Src: src, Stdin: "in\n"})
 		}
